@@ -39,7 +39,7 @@ func checkC12(c *Ctx) {
 	c.Ev.Rule = "one case = one simulated run of a corpus scenario under (restart pattern) x (map-order plan) x (engine, input mode); non-trivial/distinct as for C02. Oracles: AddPage sizes = @page sizes for the page's selector set, forced breaks start a page of the requested side, counter(page)/counter(pages) in margin boxes and in-flow probes equal position/total, no main-flow line below the content box, plain pages are full"
 	c.Ev.Assume = []string{"corpus documents only", "page 1 is a right page (LTR)", "geometry clauses use the boxes returned by layout.Layout for the same inputs"}
 	d := &semDriver{c: c, perScenarioQuick: 40, perScenarioThorough: 400,
-		use:     func(sc *Scenario) bool { return sc.Expect.PageW > 0 && (sc.Expect.Margin || len(sc.Expect.Forced) > 0) },
+		use:     func(sc *Scenario) bool { return sc.Expect.PageW > 0 },
 		oracles: semOracles("C12")}
 	d.run()
 }
